@@ -185,7 +185,11 @@ def judge_event(var, oa, ob, cnt):
     own = own_positions(oa.get("snapshots"), tk)
     if ev.get("_own_positions"):
         if not own and not oa.get("snapshots"):
-            viols.append({"clause": "hook-missing", "signature": "hook-missing", "detail": "no day-end snapshots"})
+            from ..probe import hooks_available
+            if hooks_available():
+                viols.append({"clause": "hook-missing", "signature": "hook-missing", "detail": "no day-end snapshots"})
+            else:
+                cnt["hook_unavailable:split_day_events_not_judged"] += 1
             return viols
         before = [q for (dd, q) in own if dd < s]
         pos = before[-1] if before else ZERO
